@@ -57,11 +57,41 @@ Val: /\d+/;
 GRAMMAR_IMMUT = "Top: Val | Model;\n" + GRAMMAR
 KIND = {"conv": 0, "pre": 1, "resolve": 2, "init": 3, "oproc": 4, "mproc": 5}
 KIND_NAME = {v: k for k, v in KIND.items()}
-RAISING = ("exc", "type", "unknown")
+# what a failing hook raises ("exception class" dimension of a fault, crossed with every failure point):
+#   exc     HookError, an ordinary Exception           txsem   textX's own TextXSemanticError, raised by user code
+#   kbd / exit / genexit / base   failures that are NOT Exception subclasses: KeyboardInterrupt (Ctrl-C while user
+#           code runs), SystemExit (a processor calling sys.exit()), GeneratorExit, a user-defined BaseException.
+#           The clean-up handlers of the load path only clean up and re-raise, so the class of the failure is
+#           irrelevant for the model (`raises` is a Bool there); the embedding application catches and drops it.
+BASE_KINDS = ("kbd", "exit", "genexit", "base")
+EXC_KINDS = ("exc", "txsem", *BASE_KINDS)
+RAISING = ("exc", "type", "unknown", "txsem", *BASE_KINDS)
+# deterministic cycle used by C15 for the fault of the main tree: every second round an ordinary exception
+EXC_CYCLE = ("exc", "kbd", "exc", "exit", "txsem", "base", "exc", "genexit")
 
 
 class HookError(Exception):
     """raised by a scripted hook"""
+
+
+class HookInterrupt(KeyboardInterrupt):
+    """scripted Ctrl-C while user code runs (a subclass: a real interrupt of the harness is never swallowed)"""
+
+
+class HookExit(SystemExit):
+    """scripted sys.exit() of user code"""
+
+
+class HookGenExit(GeneratorExit):
+    """scripted GeneratorExit"""
+
+
+class HookBase(BaseException):
+    """a user-defined failure that is not an Exception"""
+
+
+SCRIPTED_BASE = (HookInterrupt, HookExit, HookGenExit, HookBase)
+BASE_CLASS = {"kbd": HookInterrupt, "exit": HookExit, "genexit": HookGenExit, "base": HookBase}
 
 
 # --------------------------------------------------------------------------
@@ -548,7 +578,8 @@ class Runner:
         for idx, swallow in h["acts"]:
             try:
                 self.run_load(self.case["loads"][idx])
-            except Exception:
+            except (Exception, *SCRIPTED_BASE):
+                # user code that catches everything the nested load raised (also a scripted non-Exception) and drops it
                 if not swallow:
                     raise
         self.annotate(kind, h, ctx, ev, late=True)
@@ -556,6 +587,14 @@ class Runner:
             raise TypeError(f"scripted TypeError at {h['lab']}")
         if h["raises"] == "exc":
             raise HookError(f"scripted failure at {h['lab']}")
+        if h["raises"] == "txsem":
+            from textx.exceptions import TextXSemanticError
+
+            raise TextXSemanticError(f"scripted failure at {h['lab']}")
+        if h["raises"] in BASE_CLASS:
+            if h["raises"] == "exit":
+                raise HookExit(3)
+            raise BASE_CLASS[h["raises"]](f"scripted failure at {h['lab']}")
 
     # -- annotations: user code stores / deletes attributes on objects under construction ----
     def reachable(self, anchor):
@@ -728,7 +767,8 @@ class Runner:
             return True, None, m
         except RecursionError:
             return False, "RecursionError", None
-        except Exception as e:
+        except (Exception, *SCRIPTED_BASE) as e:
+            # the embedding application catches the failure (also one that is not an Exception) and drops it
             return False, type(e).__name__, None
 
     def named_inits(self, inits):
@@ -1162,12 +1202,33 @@ def add_anns(case, rng):
                 h2["ann"].append({"to": to, "name": name, "op": "del", "via": via2, "late": rng.chance(0.5), "val": 0})
 
 
-def gen_case(rng, fault_index=None, multi=None):
+def gen_case(rng, fault_index=None, multi=None, exc_index=None):
     """One case: load trees, faults, nested loads (`gen_case0`), then the annotations (separate random
     stream: the trees of a seed do not depend on them)."""
     case = gen_case0(rng, fault_index, multi)
     add_anns(case, rng.fork("ann"))
+    set_exc_kinds(case, rng.fork("exc-kind"), exc_index)
     return case
+
+
+def set_exc_kinds(case, rng, exc_index=None):
+    """The class of the exception a failing hook raises (separate random stream, after everything else: trees, faults
+    and annotations of a seed do not depend on it).  Every hook scripted to raise an ordinary exception -- the fault of
+    the main tree at any failure point and the faults of nested loads -- may raise textX's own semantic error or a
+    failure that is not an `Exception` (EXC_KINDS) instead.  `exc_index` fixes the class for the main tree (C15 cycles
+    EXC_CYCLE per round of the fault table: every failure point x every class); nested loads draw their own."""
+    for li, root in enumerate(case["loads"]):
+        for n in walk_nodes(root):
+            for _, h in all_hooks(n):
+                if h["raises"] != "exc":
+                    continue
+                designated = li == 0 or (li == 1 and case.get("fault", [None])[0] == "act")
+                if designated and exc_index is not None:
+                    h["raises"] = EXC_CYCLE[exc_index % len(EXC_CYCLE)]
+                elif rng.chance(0.45):
+                    h["raises"] = rng.choice(EXC_KINDS[1:])
+                if designated:
+                    case["exc_kind"] = h["raises"]
 
 
 def gen_case0(rng, fault_index=None, multi=None):
